@@ -266,7 +266,8 @@ Definition vn_first (ws : list Z) (p : list N) : res (list N * N) :=
 (* the implementation's output array [p'] against the property, for the input [p] *)
 Definition check_vn (ws : list Z) (p p' : list N) : bool :=
   let k := part_count p in
+  let m := maxN p in
   Nat.eqb (length p') (length p)
-  && forallb (fun x => (x <=? maxN p)%N) p'
+  && forallb (fun x => (x <=? m)%N) p'
   && (gap (loads ws p' k) <=? gap (loads ws p k))
   && (sumZ (loads ws p' k) =? sumZ (loads ws p k)).
